@@ -226,6 +226,10 @@ class DBusClientConnection (txdbus.protocol.BasicDBusProtocol):
 
         def add(k, v):
             if v is not None:
+                # inside the quotes everything is literal; an apostrophe
+                # in the value is written as '\'' (close, escaped
+                # apostrophe, reopen)
+                v = str(v).replace("'", "'\\''")
                 l.append(f"{k}='{v}'")
 
         add('type', mtype)
